@@ -38,6 +38,7 @@ fn main() {
         let lim = libc::rlimit { rlim_cur: 12 << 30, rlim_max: 12 << 30 };
         libc::setrlimit(libc::RLIMIT_AS, &lim);
     }
+    common::start_hang_monitor();
     let args: Vec<String> = std::env::args().collect();
     if args.len() < 2 {
         eprintln!("usage: acverif <dump|...> [--key value]...");
@@ -126,6 +127,13 @@ fn main() {
             let scale: usize = get("scale", "1").parse().unwrap();
             let (c, e) = extra::run_ids(&out, shards, seed, scale);
             println!("{{\"contexts\":{},\"events\":{}}}", c, e);
+        }
+        // self-test of the hang monitor: a guarded call that never returns
+        "hang" => {
+            common::set_case("{\"selftest\":\"hang\"}");
+            let _ = common::guarded(|| loop {
+                std::thread::sleep(std::time::Duration::from_millis(50));
+            });
         }
         "matrix" => {
             let n = matrix::run(&out);
